@@ -160,9 +160,6 @@ theorem scalar_extend32S (a : Nat) : Num.scalar "i64.extend32_s" [a] = some (.va
 
 /-! ### trapping division -/
 
-/-- the specification's trap kinds for the SSA exit codes -/
-def trapKind (c : Nat) : String := if c = codeDivByZero then "div0" else "overflow"
-
 def divRes : Except Nat Nat → Num.Res
   | .ok v => .val v
   | .error c => .trap (trapKind c)
@@ -192,4 +189,18 @@ theorem scalar_div (t : Ty) (op : IDiv) (a b : Nat) :
     Num.scalar (divName t op) [a, b] = some (divRes (evalDiv op.toSsa t a b)) := by
   rw [scalar2_eq (split_div t op), ← ibin_div]
   cases t <;> simp only [sc2, tyStr, Ty.bits]
+theorem evalDiv_code {op : DivOp} {t : Ty} {x y c : Nat} (h : evalDiv op t x y = .error c) :
+    c = codeDivByZero ∨ c = codeOverflow := by
+  unfold evalDiv at h
+  simp only at h
+  split at h
+  · cases h; exact .inl rfl
+  · cases op <;> simp only at h
+    · cases h
+    · split at h
+      · cases h; exact .inr rfl
+      · cases h
+    · cases h
+    · cases h
+
 end Wz.Proofs.Front
